@@ -195,6 +195,12 @@ def run_case(case, ctx):
     for t in vtags:
         if t != 'opt:elim_order' or engine is None:
             ctx.tag(t)
+    if solver == 'MD' and case['np_seed'] % 3 == 1 and case['give_total'] and case['total']:
+        # the caller fixes the step size (no line search): a step a few times the natural one 1/total^2 overshoots,
+        # so the last iterate is not the best one; whatever is returned must still be one distribution
+        c_ = (0.5, 2.0, 20.0, 200.0)[(case['np_seed'] // 3) % 4]
+        vkw['options'] = {'stepsize': c_ / float(case['total']) ** 2}
+        ctx.tag('opt:stepsize_x%g' % c_)
     eng, model = estim.estimate(dom, tuples, case['total'] if case['give_total'] else None, solver, case['iters'], zeros=case['zeros'],
                                 engine=engine, **vkw)
     judge_model(ctx, model, attrs, shape)
